@@ -8,7 +8,7 @@ import time
 
 sys.path.insert(0, os.path.dirname(os.path.abspath(__file__)))
 import vlib
-from engines import hs_server, hs_client, tcp_stream, codec, pending, srvlife, mux
+from engines import hs_server, hs_client, tcp_stream, codec, pending, srvlife, mux, chan
 
 # property -> list of (engine module, operator prefixes that decide it)
 PROPS = {
@@ -22,7 +22,9 @@ PROPS = {
     "C01": [(codec.C01, ["C01_", "X_Harness"])],
     "C02": [(codec.C02, ["C02_", "X_Harness"])],
     "C11": [(codec.C11, ["C11_", "X_Harness"])],
+    "C04": [(chan.C04, ["C04_", "C13_NoCrash"])],
     "C05": [(pending, ["C05_"])],
+    "C13": [(chan.C13, ["C13_"])],
     "C12": [(tcp_stream.C12, ["C12_"])],
     "C18": [(srvlife, ["C18_"])],
     "C20": [(mux, ["C20_"])],
@@ -30,6 +32,11 @@ PROPS = {
 }
 
 ASSUME = {
+    "channel": [
+        "TLC checks the Channel model exhaustively for 2 senders x 2 envelopes, stream buffer 1-2, wire capacity 2, with FinishSession at any moment; schedules of the real sessions are sampled (seeded perturbed free runs), not enumerated",
+        "delivery is owed only for envelopes reported as sent before the barrier / before the end of the session was requested; TCP receivers notice a cancellation at their next 5 s poll, so closure is observed with 7 s bounds",
+        "TLC, CommunityModules Json, the Go runtime, crypto/tls and gorilla/websocket are trusted",
+    ],
     "mux": [
         "TLC enumerates every table of up to 2 (thorough: 3) handlers for one kind over 5 predicate shapes x ok/err, with catch-all handlers for the other kinds, and every inbound sequence of up to 2 (thorough: 3) envelopes over 2 classes and 2 kinds, in both roles",
         "unbuffered channel streams make the dispatch order equal to the arrival order, so each case is deterministic; a handler error is given 40 ms to finish the session before the client asks itself",
